@@ -394,7 +394,7 @@ class Driver:
         name, units = make_str(op.get("name")), make_str(op.get("units"))
         d = SignalDef()
         d.signal_id, d.source_id, d.signal_type = op["id"], op["src"], op.get("st", 0)
-        d.data_type = dt_code(op["dt"]) | (op.get("q", 0) << 16) if op["dt"] in DTYPES else op.get("dtcode", 0)
+        d.data_type = dt_code(op["dt"]) | ((op.get("q", 0) & 0xff) << 16) if op["dt"] in DTYPES else op.get("dtcode", 0)
         d.sample_rate = op.get("rate", 1000)
         d.samples_per_data, d.sample_decimate_factor = op.get("spd", 0), op.get("sdf", 0)
         d.entries_per_summary, d.summary_decimate_factor = op.get("eps", 0), op.get("sumdf", 0)
@@ -408,7 +408,7 @@ class Driver:
             s["dt"] = op["dt"]
         s["base"] = op.get("base", 0)
         s["tbase"] = op.get("tbase", 0)
-        self.emit({"e": "SignalDef", "id": op["id"], "src": op["src"], "st": op.get("st", 0), "dt": op["dt"],
+        self.emit({"e": "SignalDef", "id": op["id"], "src": op["src"], "st": op.get("st", 0), "dt": op["dt"], "fq": op.get("q", 0) & 0xff,
                    "bits": DTYPES[op["dt"]][1] if op["dt"] in DTYPES else 0, "rate": _clip(op.get("rate", 1000)),
                    "spd": _clip(op.get("spd", 0)), "sdf": _clip(op.get("sdf", 0)), "eps": _clip(op.get("eps", 0)), "sumdf": _clip(op.get("sumdf", 0)),
                    "adf": _clip(op.get("adf", 0)), "udf": _clip(op.get("udf", 0)), "name": str_tok(name), "units": str_tok(units),
@@ -477,7 +477,12 @@ class Driver:
         if stype in (2, 3):
             data = data.replace(b"\0", b"x") + b"\0"
         w0 = self.iow0()
-        rc = self.fn("user_data")(self.wr, op["meta"], stype, data, len(data) if stype == 1 else 0)
+        dsz = len(data)
+        if stype != 1:
+            # data_size is documented as ignored for strings: any value must store the whole string
+            n = len(data) - 1
+            dsz = op["dsz"] if "dsz" in op else [0, 0, n, n + 1, 1, n // 2, 4096][(n * 7 + op["meta"]) % 7]
+        rc = self.fn("user_data")(self.wr, op["meta"], stype, data, dsz)
         self.emit({"e": "UserData", "meta": op["meta"], "st": stype, "tok": fnv(data), "size": len(data), "rc": rc,
                    "w": self.wspan(w0)})
 
@@ -665,7 +670,7 @@ class Driver:
 
     @staticmethod
     def sigdef_rec(d):
-        return {"id": d.signal_id, "src": d.source_id, "st": d.signal_type, "dt": dt_name(d.data_type),
+        return {"id": d.signal_id, "src": d.source_id, "st": d.signal_type, "dt": dt_name(d.data_type), "fq": (d.data_type >> 16) & 0xff,
                 "rate": _clip(d.sample_rate), "spd": _clip(d.samples_per_data), "sdf": _clip(d.sample_decimate_factor),
                 "eps": _clip(d.entries_per_summary), "sumdf": _clip(d.summary_decimate_factor),
                 "adf": _clip(d.annotation_decimate_factor), "udf": _clip(d.utc_decimate_factor),
@@ -737,10 +742,16 @@ class Driver:
             js = [0]
             if cfg.get("bytes", "some") == "all" and e.len <= cfg.get("all_max", 64):
                 js = list(range(0, e.len))
+            elif cfg.get("bytes") == "step8" and not inplace:
+                js = list(range(0, e.len, 8))          # every 8-byte-aligned torn length of an appended write
             elif inplace or e.len <= 40:
                 js = sorted({0, 1, 8, 16, e.len - 1, e.len // 2} & set(range(0, e.len)))
             else:
-                js = sorted({0, 1, e.len // 2, e.len - 1} & set(range(0, e.len))) if cfg.get("bytes", "some") != "none" else [0]
+                # ... and torn tails of 8 / 16 / 24 bytes beyond a multiple of 1024 behind the last complete chunk (the
+                # repairing open looks for that chunk in windows of 1024 bytes): the write may or may not follow a
+                # complete 32-byte header
+                edge = {k + d_ for k in (0, 992, 1024, 2016, 2048) for d_ in (8, 16, 24)}
+                js = sorted(({0, 1, e.len // 2, e.len - 1} | edge) & set(range(0, e.len))) if cfg.get("bytes", "some") != "none" else [0]
             stride = cfg.get("stride", 1)
             # image budget per program: thin out evenly once it is being used up
             budget = cfg.get("budget", 800)
@@ -776,8 +787,9 @@ class Driver:
         for ch in chunks:
             o = ch["off"]
             size = 32 + (lifter.disk_size(ch["plen"]) if ch["plen"] else 0)
-            for c in (o, o + 8, o + 31, o + 32, o + 33, o + size // 2, o + size - 4, o + size - 1):
-                if 32 < c < len(img):
+            for c in (o, o + 8, o + 31, o + 32, o + 33, o + size // 2, o + size - 4, o + size - 1, o + 1024 + 8, o + 1024 + 16, o + 1024 + 24,
+                      o + 2048 + 16):
+                if 32 < c < min(len(img), o + size):
                     cuts.add(c)
         cuts = sorted(cuts)
         count = op.get("count", 40)
@@ -1122,6 +1134,9 @@ class Driver:
                     res["modified"] = f.read() != img
                 if rc == 0:
                     res["obs"] = self.observe_reader(h, defs=True)
+                    if _any_failure(res["obs"]):
+                        # what a call leaves behind when it fails must not serve the next one: ask everything again
+                        res["obs2"] = self.observe_reader(h, defs=True)
                     self.L.jls_rd_close(h)
                 os.write(wfd, json.dumps(res).encode())
             finally:
@@ -1132,7 +1147,7 @@ class Driver:
         import time as _t
         t0 = _t.time()
         while True:
-            r, _, _ = select.select([rfd], [], [], max(0.0, 3.0 - (_t.time() - t0)))
+            r, _, _ = select.select([rfd], [], [], max(0.0, 4.0 - (_t.time() - t0)))
             if not r:
                 term = "hang"
                 os.kill(pid, 9)
@@ -1153,11 +1168,15 @@ class Driver:
         for ent in obs["sigs"]:
             ent.setdefault("first", 0)
             ent["ondisk"] = 0
-        self.emit({"e": "FaultObs", "fault": kind, "arg": arg[:6], "region": reg[0], "tag": reg[1], "term": term, "rc": res.get("rc", -1),
-                   "wcount": res.get("wcount", 0), "modified": bool(res.get("modified", False)),
-                   "sigs": obs["sigs"], "annos": obs["annos"], "utcs": obs["utcs"], "ud": obs["ud"], "nsig": obs.get("nsig", 0),
-                   "defs": obs.get("defs", {"rc": 0, "srcs": [], "sigs": []}), "j": 1, "after_defs": False,
-                   "re": {"rc": 0, "wcount": 0, "modified": False, "same": True}, "closed_ok": True})
+        for npass, o_ in enumerate([obs] + ([res["obs2"]] if res.get("obs2") else []), 1):
+            for ent in o_["sigs"]:
+                ent.setdefault("first", 0)
+                ent["ondisk"] = 0
+            self.emit({"e": "FaultObs", "fault": kind, "arg": arg[:6], "region": reg[0], "tag": reg[1], "term": term, "rc": res.get("rc", -1),
+                       "wcount": res.get("wcount", 0), "modified": bool(res.get("modified", False)),
+                       "sigs": o_["sigs"], "annos": o_["annos"], "utcs": o_["utcs"], "ud": o_["ud"], "nsig": o_.get("nsig", 0),
+                       "defs": o_.get("defs", {"rc": 0, "srcs": [], "sigs": []}), "j": 1, "after_defs": False,
+                       "re": {"rc": 0, "wcount": 0, "modified": False, "same": True}, "closed_ok": True, "pass": npass})
         try:
             os.remove(ipath)
         except OSError:
@@ -1273,7 +1292,7 @@ class Driver:
                   "tok": d.get("tok", ""), "size": d.get("size", 0), "st": d.get("st", d.get("stype", 0)), "id": d.get("id", d.get("meta12", 0)),
                   "strs": d.get("s") or [], "sdef": {}, "runs": [], "rsv0": bool(d.get("rsv0", True)), "hdr1": bool(d.get("hdr1", True))}
             if d["kind"] == "signal":
-                ev["sdef"] = {"id": d["id"], "src": d["src"], "st": d["st"], "dt": dt_name(d["dtc"]), "rate": d["rate"], "spd": d["spd"], "sdf": d["sdf"],
+                ev["sdef"] = {"id": d["id"], "src": d["src"], "st": d["st"], "dt": dt_name(d["dtc"]), "fq": d["dtq"] & 0xff, "rate": d["rate"], "spd": d["spd"], "sdf": d["sdf"],
                               "eps": d["eps"], "sumdf": d["sumdf"], "adf": d["adf"], "udf": d["udf"], "name": d["name"], "units": d["units"]}
             if d["kind"] == "track" and d["tt"] == 0 and d["ck"] == 2:
                 s = self.sigs.get(d["sig"])
@@ -1315,6 +1334,18 @@ def _clip(v):
     drivers keep every quantity the specifications compute with far below that."""
     v = int(v)
     return max(-INT_MAX, min(INT_MAX, v))
+
+def _any_failure(obs):
+    """did any query of a reader dump report an error?"""
+    for e_ in obs.get("sigs", []):
+        if e_.get("lrc") or e_.get("rrc") or any(x and x[0] != 0 for x in e_.get("st", [])):
+            return True
+    for k_ in ("annos", "utcs"):
+        for e_ in obs.get(k_, []):
+            if e_.get("rc") or any(r_[1] != 0 or r_[3] != 0 for r_ in e_.get("conv", [])):
+                return True
+    return bool(obs.get("ud", {}).get("rc")) or bool(obs.get("defs", {}).get("rc"))
+
 
 def fsr_chunk_seq(img):
     """The FSR track of every FSR signal as a chunk sequence in file order (for the tier-B repair model JlsRepair.tla):
